@@ -260,10 +260,7 @@ func init() {
 	checks["C17"] = func(args []string) int {
 		th := ev.Tier() == "thorough"
 		rep := ev.NewReport("C17", "model_checking")
-		depth := 3
-		if th {
-			depth = 4
-		}
+		depth := 4 // both tiers: all request sequences of length 4 in every non-babbling state
 		var items []GateItem
 		for _, st := range []string{"suspended", "suspended-idle", "maintenance", "joining", "catchingup", "shutdown"} {
 			for k := range gateReqs {
